@@ -319,7 +319,7 @@ func runC13(c *Ctx) {
 				if len(r.Results) == 0 {
 					continue
 				}
-				for _, lf := range w.Leaves(r.Results[len(r.Results)-1], r) {
+				for _, lf := range w.LeavesErr(r.Results[len(r.Results)-1], r) {
 					v := throughCell(strip(lf.Val))
 					fromNew := v == ssa.Value(newfmt)
 					if ex, ok := v.(*ssa.Extract); ok {
